@@ -408,6 +408,13 @@ class Spec:
                         ent = getattr(dl, "_datalists", {}).get(tid) if dl is not None else None
                         fp.append((ent["next_key"], len(ent["by_key"])) if ent else None)
                     fp.append(sorted(k for k in getattr(tab, "_cache", {})))
+            skip = ("_items", "_model", "_data", "_cache", "_tables")
+            fp.append(explore.generic_fingerprint(doc._sheets, skip))
+            for sheet in doc.sheets:
+                fp.append(explore.generic_fingerprint(sheet, skip))
+                fp.append(explore.generic_fingerprint(sheet._tables, skip))
+                for tab in sheet.tables:
+                    fp.append(explore.generic_fingerprint(tab, skip))
             fp.append(sorted((k, len(v) if hasattr(v, "__len__") else 1) for k, v in m._cache.items()))
             fp.append(sorted((k, sorted(v)) for k, v in getattr(m, "_row_heights", {}).items()))
             parts.append(repr(fp))
